@@ -13,11 +13,18 @@ Property theorems only (lemmas: `Wildcard/Proofs.lean`, `Proofs2.lean`, `Proofs3
   that glibc's `regcomp`/`regexec` implement them on the well-formed fragment.
 
 `WF` = inside the documented grammar: unescaped literals are plain characters, classes are non-empty and contain
-none of `] [ ^ - \ , . + * ?` as members, precedence is respected, and the body does not begin with an unescaped
-`~`, backtick or `<`.  Outside of it the code deviates from the documentation in three known ways, each kept as
-a corpus trigger and reported by the direct oracle: F9 (range subjects) and "class" (the translation is not
-class-aware; `class_translation_iff` below says exactly when it is harmless).  A third one, "tick" (leading backtick
-not escaped by `EscapeRegexTokens`), has been fixed in /repo; its trigger stays in the corpus as a regression case.
+none of `] [ ^ - \` as members (every other character, `, . + * ?` included, is an ordinary member), precedence
+is respected, numbers in a range list are below `MUSCLE_NO_LIMIT`, and the body does not begin with an unescaped
+`~`, backtick or `<`.
+
+Three deviations of the code from the documentation were found with this check and repaired in /repo; their
+trigger inputs stay in the corpus as regression cases (corpus/C15/wc-regress-*.ops) and the hypotheses the
+theorems once needed because of them are gone:
+* F9 — `Match` on a range list looked only at a numeric prefix of the subject and wrapped at 2^32
+  (`range_spec_documented`, `match_spec_ranges`: now for every subject);
+* "class" — the translation loop rewrote `, . + * ?` inside `[..]` too (`class_translation_exact`, and `WF` admits
+  those members);
+* "tick" — `EscapeRegexTokens` left a leading backtick unescaped (`escape_exact`: now for every C string).
 The `IsRegexToken` table and the list of characters `SetPattern` keeps a backslash in front of are not typed in:
 they are regenerated from /repo on every run (`Muscle.Gen.*`) and every fact the proofs use about them is
 re-derived from the generated tables (`Wildcard/Tables.lean`).
@@ -34,9 +41,10 @@ theorem denote_spec (p : Pat) (s : Bytes) : p.denote s = true ↔ Pat.Matches p 
   denote_iff p s
 
 /-- The character loop of `SetPattern` emits exactly the rendering of the intended ERE
-    (a string homomorphism with one bit of state, the escape mode, which is off at every token boundary). -/
+    (a string homomorphism with two pieces of state — the escape mode and the "inside a class" marker — which are
+    both off at every token boundary). -/
 theorem translate_render (p : Pat) (h : p.WF = true) :
-    translateLoop false p.render = (toEre p).render := by
+    translateLoop false none p.render = (toEre p).render := by
   have := translateLoop_render p [] h
   simpa [translateLoop] using this
 
@@ -72,46 +80,28 @@ theorem match_spec (libc : Libc) (hg : GlibcOK libc) (neg : Bool) (p : Pat) (h :
   simp only [matchCompiled, h1, h2, h3, hf, hd, List.isEmpty_nil, if_true, Top.denote]
   cases neg <;> cases p.denote s <;> rfl
 
-/-- Finding "class", stated precisely on the model.  The loop of `SetPattern` does not know that it is inside
-    `[..]`; it emits the text of a (backslash-free) class unchanged — so that glibc sees the class the user wrote —
-    if and only if no member or range bound is one of `, . + * ?`.  With one of them the class handed to `regcomp`
-    is a different one (`[a,b]` becomes `[a|b]`, `[?]` becomes `[.]`: examples below). -/
-theorem class_translation_iff (neg : Bool) (items : List ClsItem) (rest : Bytes) (hbs : cBs ∉ renderItems items) :
-    translateLoop false ((Pat.cls neg items).render ++ rest) = (Pat.cls neg items).render ++ translateLoop false rest
-      ↔ ∀ c ∈ renderItems items, c ≠ cComma ∧ c ≠ cDot ∧ c ≠ cPlus ∧ c ≠ cStar ∧ c ≠ cQm := by
-  have hbs' : cBs ∉ (Pat.cls neg items).render := by
-    cases neg <;> simp [Pat.render, hbs] <;> decide
-  rw [translateLoop_fixes_iff _ rest hbs']
-  rw [cls_render_all_pass, List.all_eq_true]
-  constructor
-  · intro h c hc
-    have := h c hc
-    simp only [passThru, Bool.not_eq_true', Bool.or_eq_false_iff, beq_eq_false_iff_ne, ne_eq] at this
-    exact ⟨this.1.1.1.1.1, this.1.1.1.1.2, this.1.1.1.2, this.1.1.2, this.1.2⟩
-  · intro h c hc
-    obtain ⟨h1, h2, h3, h4, h5⟩ := h c hc
-    have h6 : c ≠ cBs := fun e => hbs (e ▸ hc)
-    simp [passThru, h1, h2, h3, h4, h5, h6]
+/-- Former finding "class" (repaired): the loop of `SetPattern` copies a whole character class — members `, . + * ?`
+    included — to `regcomp` unchanged, and is outside the class again after its closing `]`. -/
+theorem class_translation_exact (neg : Bool) (items : List ClsItem) (rest : Bytes)
+    (h : (Pat.cls neg items).WF = true) :
+    translateLoop false none ((Pat.cls neg items).render ++ rest)
+      = (Pat.cls neg items).render ++ translateLoop false none rest := by
+  simp only [Pat.WF, Bool.and_eq_true] at h
+  exact translateLoop_class neg items rest (by intro e; subst e; simp at h) h.2
 
-/-- What `Match` does with a range list, exactly (this is finding F9: only the leading run of digits of the
-    subject is looked at, and its value is reduced modulo 2^32). -/
+/-- What `Match` does with a range list, exactly: the whole subject must be a decimal number, and its value —
+    clamped, not wrapped, to `MUSCLE_NO_LIMIT` — must lie in one of the stored ranges. -/
 theorem range_spec_code (rs : List (Nat × Nat)) (s : Bytes) :
     matchRange rs s = true ↔
-      (s.takeWhile isDigit ≠ [] ∧ ∃ r ∈ rs, r.1 ≤ decVal (s.takeWhile isDigit) % 4294967296 ∧
-        decVal (s.takeWhile isDigit) % 4294967296 ≤ r.2) :=
+      (isDecimal s = true ∧ ∃ r ∈ rs, r.1 ≤ min (decVal s) noLimit ∧ min (decVal s) noLimit ≤ r.2) :=
   matchRange_iff rs s
 
-/-- The documented statement — "matches ASCII representations of integers in that range" — holds under the
-    explicit hypothesis that the subject IS a canonical decimal below 2^32. -/
-theorem range_spec (rs : List (Nat × Nat)) (s : Bytes) (hs : isCanonDecimal s = true) (hv : decVal s < 4294967296) :
-    matchRange rs s = true ↔ ∃ r ∈ rs, r.1 ≤ decVal s ∧ decVal s ≤ r.2 :=
-  matchRange_canon rs s hs hv
-
-/-- …and for a documented range list the stored `IDRange`s mean what the clauses say. -/
-theorem range_spec_documented (neg : Bool) (rs : List RangeSpec) (hwf : (Top.ranges neg rs).WF = true) (s : Bytes)
-    (hs : isCanonDecimal s = true) (hv : decVal s < 4294967296) :
+/-- The documented statement — "matches ASCII representations of integers in that range", "`<21->` matches all
+    integers greater than or equal to 21" — for every documented range list and EVERY subject (integers of any
+    size; anything that is not a string of digits is not matched). -/
+theorem range_spec_documented (neg : Bool) (rs : List RangeSpec) (hwf : (Top.ranges neg rs).WF = true) (s : Bytes) :
     (matchRange (rs.map RangeSpec.toId) s != neg) = (Top.ranges neg rs).denote s := by
-  simp only [Top.denote, rangeDenote, hs, Bool.true_and, matchRange_toId neg rs hwf s hs hv]
+  simp only [Top.denote, matchRange_toId neg rs hwf s]
 
 /-- `SetPattern` reads the text of a documented range list `[~]<a-b,c,d-,-e>` as exactly the ranges it denotes
     (tokenizer, `DigitsOnly`, `Atoull`, the trailing `>` that the last clause still carries), and compiles no regex. -/
@@ -121,13 +111,13 @@ theorem setPattern_ranges (neg : Bool) (rs : List RangeSpec) (hwf : (Top.ranges 
     (setPattern (Top.ranges neg rs).render).regex = none :=
   setPattern_rangeList neg rs hwf
 
-/-- End to end for range lists (no libc involved): on subjects that are canonical decimals below 2^32, `Match`
-    after `SetPattern` answers the documented meaning, negation included.  (Other subjects: finding F9.) -/
+/-- End to end for range lists (no libc involved), for every subject: `Match` after `SetPattern` answers the
+    documented meaning, negation included. -/
 theorem match_spec_ranges (libc : Libc) (neg : Bool) (rs : List RangeSpec) (hwf : (Top.ranges neg rs).WF = true)
-    (s : Bytes) (hs : isCanonDecimal s = true) (hv : decVal s < 4294967296) :
+    (s : Bytes) :
     matchCompiled libc (setPattern (Top.ranges neg rs).render) s = (Top.ranges neg rs).denote s := by
   obtain ⟨h1, h2, h3⟩ := setPattern_ranges neg rs hwf
-  rw [← range_spec_documented neg rs hwf s hs hv]
+  rw [← range_spec_documented neg rs hwf s]
   have hne : (rs.map RangeSpec.toId).isEmpty = false := by
     simp only [Top.WF, Bool.and_eq_true, Bool.not_eq_true'] at hwf
     simpa using hwf.1
@@ -255,18 +245,22 @@ example : (Top.ranges true [.span (some 19) (some 21), .one 25, .span (some 30) 
     = [126, 60, 49, 57, 45, 50, 49, 44, 50, 53, 44, 51, 48, 45, 62] := by
   simp [Top.render, renderRanges, RangeSpec.render, decimal]
 
-/-- F9: `<5-7>` as stored by the code matches `6x` and `06`; the documented meaning does not -/
+/-- former finding F9 (repaired): `<5-7>` no longer matches `6x` or `4294967302`; `06` is a representation of 6;
+    an integer too large for 32 bits still matches the open-ended `<5->` -/
 example : parseRanges [60, 53, 45, 55, 62] = [(5, 7)] := by decide
-example : matchRange [(5, 7)] [54, 120] = true ∧ rangeDenote [.span (some 5) (some 7)] [54, 120] = false := by decide
-example : matchRange [(5, 7)] [48, 54] = true ∧ rangeDenote [.span (some 5) (some 7)] [48, 54] = false := by decide
-example : isCanonDecimal [54] = true ∧ decVal [54] < 4294967296 ∧ matchRange [(5, 7)] [54] = true := by decide
+example : matchRange [(5, 7)] [54, 120] = false ∧ rangeDenote [.span (some 5) (some 7)] [54, 120] = false := by decide
+example : matchRange [(5, 7)] [52, 50, 57, 52, 57, 54, 55, 51, 48, 50] = false := by decide
+example : matchRange [(5, 7)] [48, 54] = true ∧ rangeDenote [.span (some 5) (some 7)] [48, 54] = true := by decide
+example : matchRange [(5, 4294967295)] [57, 57, 57, 57, 57, 57, 57, 57, 57, 57, 57, 57] = true ∧
+          rangeDenote [.span (some 5) none] [57, 57, 57, 57, 57, 57, 57, 57, 57, 57, 57, 57] = true := by decide
 
-/-- finding "class": `[a,b]` is handed to regcomp as `[a|b]`, which contains `|` and not `,`; `[?]` as `[.]` -/
-example : translateLoop false [91, 97, 44, 98, 93] = [91, 97, 124, 98, 93] ∧
-          translateLoop false [91, 63, 93] = [91, 46, 93] := by decide
-example : clsHas false [.ch 97, .ch 44, .ch 98] 44 = true ∧ clsHas false [.ch 97, .ch 124, .ch 98] 44 = false := by decide
-/-- …whereas `[^0-1(]` goes through unchanged -/
-example : translateLoop false [91, 94, 48, 45, 49, 40, 93] = [91, 94, 48, 45, 49, 40, 93] := by decide
+/-- former finding "class" (repaired): `[a,b]` and `[?]` reach regcomp as they are; `[]a]`-style first members and
+    an escaped `]` are tracked as regcomp sees them -/
+example : translateLoop false none [91, 97, 44, 98, 93, 44] = [91, 97, 44, 98, 93, 124] ∧
+          translateLoop false none [91, 63, 93, 63] = [91, 63, 93, 46] := by decide
+example : (Pat.cls false [.ch 97, .ch 44, .ch 98]).WF = true := by decide
+example : translateLoop false none [91, 93, 44, 93, 44] = [91, 93, 44, 93, 124] ∧
+          translateLoop false none [91, 94, 93, 44, 93, 44] = [91, 94, 93, 44, 93, 124] := by decide
 
 /-- former finding "tick" (fixed in /repo): a leading backtick is escaped, so the pattern is not a raw regex -/
 example : escape [96, 97] = [92, 96, 97] ∧ (setPattern (escape [96, 97])).regex = some [94, 40, 96, 97, 41, 36] := by decide
